@@ -88,7 +88,7 @@ var sinkMu sync.Mutex
 func traceVM(p *bcl.Prog, opts ...bcl.Option) (steps []map[string]any, res []bcl.Block, bind bcl.Binding, err error, pan string) {
 	sinkMu.Lock()
 	defer sinkMu.Unlock()
-	bcl.VerifSink = func(e bcl.VerifEvent) {
+	setSink(func(e bcl.VerifEvent) {
 		if e.Kind != "step" {
 			return
 		}
@@ -97,9 +97,9 @@ func traceVM(p *bcl.Prog, opts ...bcl.Option) (steps []map[string]any, res []bcl
 			st[i] = tval(v)
 		}
 		steps = append(steps, map[string]any{"e": "step", "pc": e.A, "btos": e.B, "stack": st})
-	}
+	})
 	defer func() {
-		bcl.VerifSink = nil
+		setSink(nil)
 		if r := recover(); r != nil {
 			pan = fmt.Sprint(r)
 		}
